@@ -345,7 +345,7 @@ class SymSim:
                 w = len(sig)
                 cm = self.comb_mask.get(s, 0)
                 full = (1 << w) - 1
-                if cm:
+                if cm or s.is_comb is True:
                     # bits of a combinationally driven signal that no process drives stay at init
                     # for ever (a testbench may not write them); only sync-driven bits are state
                     cm = full & ~(self.sync_mask.get(s, 0) & ~cm)
